@@ -31,6 +31,9 @@ impl Watermark {
 
     /// Get current time watermark
     pub fn now() -> Self {
+        #[cfg(rre_verif)]
+        return Self::from_system_time(crate::verif_hooks::system_time_now());
+        #[cfg(not(rre_verif))]
         Self::from_system_time(SystemTime::now())
     }
 
@@ -93,7 +96,10 @@ impl WatermarkGenerator {
             current_watermark: Watermark::new(0),
             strategy,
             max_timestamp: 0,
+            #[cfg(not(rre_verif))]
             last_emission: SystemTime::now(),
+            #[cfg(rre_verif)]
+            last_emission: crate::verif_hooks::system_time_now(),
             _pending_events: VecDeque::new(),
         }
     }
@@ -115,7 +121,10 @@ impl WatermarkGenerator {
     fn maybe_generate_watermark(&mut self) -> Option<Watermark> {
         let new_watermark = match &self.strategy {
             WatermarkStrategy::Periodic { interval } => {
+                #[cfg(not(rre_verif))]
                 let now = SystemTime::now();
+                #[cfg(rre_verif)]
+                let now = crate::verif_hooks::system_time_now();
                 let elapsed = now.duration_since(self.last_emission).ok()?;
 
                 if elapsed >= *interval {
